@@ -385,7 +385,7 @@ where
 {
   let m = (a + b) / 2.0;
   let fm = f(m).into();
-  let simpson_value = (b - a).abs() / 6.0 * (fa + 4.0 * fm + fb);
+  let simpson_value = (b - a) / 6.0 * (fa + 4.0 * fm + fb);
   (m, fm, simpson_value)
 }
 
